@@ -249,6 +249,8 @@ def extract_fn(unit: str, file: str, item: str, mode: str, contracts, canary: bo
     raw = sf.text[it.start:it.end]
     info = FnInfo(unit, file, item, mode, sf.line_of(it.start), sf.line_of(it.end - 1),
                   hashlib.sha256(raw.encode()).hexdigest(), c)
+    if any(it.start <= m < it.end for m in getattr(sf, 'r24_marks', [])):
+        info.rewrites.append('R24:or-pattern with guard expanded')
     toks = sf.toks
 
     def repo_origin(off):
